@@ -3077,6 +3077,20 @@ EbErrorType svt_svt_enc_init_parameter(
 
     config_ptr->qp = 50;
     config_ptr->use_qp_file = EB_FALSE;
+    // fields that were left holding whatever the caller's memory contained: give them defined
+    // defaults like every other field
+    config_ptr->rc_twopass_stats_in.buf = NULL;
+    config_ptr->rc_twopass_stats_in.sz = 0;
+    config_ptr->rc_firstpass_stats_out = EB_FALSE;
+    config_ptr->is_16bit_pipeline = EB_FALSE;
+    config_ptr->vbv_bufsize = 0;
+    config_ptr->render_width = 0;
+    config_ptr->render_height = 0;
+    config_ptr->enable_qp_scaling_flag = 1;
+    config_ptr->enable_denoise_flag = 0;
+    config_ptr->in_loop_me_flag = EB_TRUE;
+    config_ptr->manual_pred_struct_entry_num = 0;
+    memset(config_ptr->pred_struct, 0, sizeof(config_ptr->pred_struct));
 #if FTR_ENABLE_FIXED_QINDEX_OFFSETS
     config_ptr->use_fixed_qindex_offsets = EB_FALSE;
     memset(config_ptr->qindex_offsets, 0, sizeof(config_ptr->qindex_offsets));
